@@ -143,6 +143,22 @@ Theorem hex_decode_sound_refuted : hex2rgb_pinned w_arabic_zeros = Some (0, 0, 0
 Proof. exact hex2rgb_pinned_unsound. Qed.
 Print Assumptions hex_decode_sound_refuted.
 
+(* rgb2hex of a name, for ANY table: what the table says, in #RRGGBB *)
+Theorem rgb2hex_names : forall tbl name h, rgb2hex_name tbl name = Some h ->
+  exists r g b, lookup (map ascii_lower name) tbl = Some (r, g, b) /\ color_lexical h = true /\ hex2rgb h = Some (Z.to_N r, Z.to_N g, Z.to_N b).
+Proof. exact rgb2hex_name_lemma. Qed.
+Print Assumptions rgb2hex_names.
+(* hexa_color on every input form (None, tuples of any length, names, blank, '#...' strings, anything else): whenever a string is
+   returned for an input that is not a malformed '#...' string, it is #rrggbb and reads back as the colour the input denotes *)
+Theorem hexa_color_thm : forall tbl i h, hexa_color tbl i = Some (Some h) -> hexa_ok i = true ->
+  color_lexical h = true /\ hexa_denotes tbl i = hex2rgb h /\ exists rgb, hex2rgb h = Some rgb.
+Proof. exact hexa_color_lemma. Qed.
+Print Assumptions hexa_color_thm.
+(* ... and a malformed '#...' string is handed back unchanged (pinned by the test-suite with "#f00"): known finding *)
+Theorem hexa_color_lexical_refuted : hexa_color css3_colormap (HStr [35;102;48;48]%N) = Some (Some [35;102;48;48]%N) /\ color_lexical [35;102;48;48]%N = false.
+Proof. exact hexa_color_passthrough. Qed.
+Print Assumptions hexa_color_lexical_refuted.
+
 (* ---------------------------------------------------------------- lengths (Unit) *)
 (* repaired Unit (fixes/F70): str then parse is the identity on every length without exponent, any sign, any unit of letters *)
 Theorem unit_roundtrip : forall (d : dec) (u : str), (dexp d <= 0)%Z -> u <> [] -> forallb is_letter u = true ->
